@@ -311,6 +311,11 @@ pub assume_specification [<i64 as num::CheckedDiv>::checked_div] (a: &i64, b: &i
 pub assume_specification [i64::wrapping_rem] (a: i64, b: i64) -> (r: i64)
     requires b != 0,
     ensures r == trem(a as int, b as int);
+pub assume_specification [i32::checked_abs] (a: i32) -> (r: Option<i32>)
+    ensures (r matches Some(v) ==> v == iabs(a as int)), (r is None <==> a == i32::MIN);
+pub assume_specification [i32::checked_pow] (a: i32, e: u32) -> (r: Option<i32>)
+    ensures (r matches Some(v) ==> v == ipow(a as int, e as nat)), (r is None <==> !fits_i32(ipow(a as int, e as nat)));
+pub assume_specification [f64::abs] (a: f64) -> f64;
 pub assume_specification [i64::checked_pow] (a: i64, e: u32) -> (r: Option<i64>)
     ensures (r matches Some(v) ==> v == ipow(a as int, e as nat)), (r is None <==> !fits_i64(ipow(a as int, e as nat)));
 pub assume_specification [i64::unsigned_abs] (a: i64) -> (r: u64)
@@ -672,8 +677,9 @@ UNITS = [{
         'impl Number::abs': {
             'props': ['C08', 'C06'],
             'ensures': [
-                (S, 'is_exact(r) <==> is_exact(*self)'),
-                (S, 'is_exact(*self) ==> vden(r) == vden(*self) && vnum(r) == iabs(vnum(*self))'),
+                (S, 'is_exact(r) ==> is_exact(*self)'),
+                (S, 'is_exact(r) ==> vden(r) > 0 && q_eq(vnum(r), vden(r), iabs(vnum(*self)), vden(*self))'),
+                (S, 'is_exact(*self) ==> is_exact(r) || (*self is Rational && vnum(*self) == i32::MIN && vden(*self) != 1)'),
             ],
         },
         'impl Number::floor': {
@@ -700,8 +706,8 @@ UNITS = [{
         'impl Number::pow': {
             'props': ['C08', 'C06'],
             'ensures': [
-                (S, 'is_exact(r) ==> is_exact(*self) && vnum(r) == ipow(vnum(*self), exp as nat) && vden(r) == ipow(vden(*self), exp as nat)'),
-                (S, 'is_exact(*self) && !(*self is Rational) ==> is_exact(r)'),
+                (S, 'is_exact(r) ==> is_exact(*self) && vden(r) > 0 && q_eq(vnum(r), vden(r), ipow(vnum(*self), exp as nat), ipow(vden(*self), exp as nat))'),
+                (S, 'is_exact(*self) ==> is_exact(r) || (*self is Rational && (!fits_i32(ipow(vnum(*self), exp as nat)) || !fits_i32(ipow(vden(*self), exp as nat))))'),
             ],
         },
         'impl Number::is_integer': {
